@@ -161,7 +161,9 @@ func c09HTMLEndConditionMet(b *ast.HTMLBlock, src []byte) bool {
 		if seg.Start < 0 || seg.Stop > len(src) || seg.Start > seg.Stop {
 			return false
 		}
-		line := bytes.ToLower(src[seg.Start:seg.Stop])
+		// ASCII case only: tag names are matched ASCII-case-insensitively, and Unicode lower-casing would turn U+0130 and
+		// U+212A into the letters i and k ("</scr\u0130pt>" is not an end tag)
+		line := asciiLower(src[seg.Start:seg.Stop])
 		for _, e := range c09HTMLEnds[b.HTMLBlockType] {
 			if bytes.Contains(line, []byte(e)) {
 				return true
@@ -169,6 +171,17 @@ func c09HTMLEndConditionMet(b *ast.HTMLBlock, src []byte) bool {
 		}
 	}
 	return false
+}
+
+func asciiLower(b []byte) []byte {
+	out := make([]byte, len(b))
+	for i, c := range b {
+		if c >= 'A' && c <= 'Z' {
+			c += 32
+		}
+		out[i] = c
+	}
+	return out
 }
 
 // c09OpeningFence finds the fence of the line that precedes the line containing offset pos.
@@ -763,7 +776,8 @@ func runC09(c *core.Ctx) {
 	r := c.Rng
 	// (0) regression seeds: witnesses of repaired defects (72eab90: a tab-indented short last line taken for blank)
 	if c.Shard == 0 {
-		for _, a := range []string{"> \t#\n", "> \t##\n", "- \t#\n", "1. \t#\n", "> \t:\n", "> \t-\n", ">  \t#\n"} {
+		// (and documents that end in an HTML block whose "end tag" only looks like one: U+0130 / U+212A are not ASCII letters)
+		for _, a := range []string{"<style></scr\u0130pt>\n", "<textarea></scr\u0130pt>\n", "<script></\u212are>\n", "> \t#\n", "> \t##\n", "- \t#\n", "1. \t#\n", "> \t:\n", "> \t-\n", ">  \t#\n"} {
 			for si, sp := range specs {
 				c09CheckIndep(c, pool, sp, &c09Indep{a: []byte(a), b: []byte("after\n"), h: si})
 			}
